@@ -338,7 +338,9 @@ fn gev_inner(e: &Ex, v: &Vars, m: &Memo) -> Option<C> {
                         return None;
                     }
                     // 0^negative and friends are singular
-                    if a.norm() == 0.0 && b.re <= 0.0 && !(b.re == 0.0 && b.im == 0.0) {
+                    // (an exponent whose real part is positive only by rounding noise, e.g. (-2i)^1
+                    // computed through exp/log, is as singular as a purely imaginary one)
+                    if a.norm() == 0.0 && b.re <= 1e-9 * (1.0 + b.norm()) && !(b.re == 0.0 && b.im == 0.0) {
                         return None;
                     }
                     if a.norm() == 0.0 && b.norm() == 0.0 {
